@@ -19,20 +19,26 @@ from vlib import core
 from checks import _value
 
 MODULES = ["Qentem.Props.C16Value"]
-THEOREMS = []   # filled below when the property module exists
-
-
-def _theorems():
-    import os
-    import re
-    fn = os.path.join(core.LEAN_DIR, "Qentem", "Props", "C16Value.lean")
-    if not os.path.exists(fn):
-        return []
-    names = re.findall(r"^theorem (\w+)", open(fn).read(), re.M)
-    return ["Qentem.Props.C16Value." + n for n in names]
-
-
-THEOREMS = _theorems()
+THEOREMS = [
+    "Qentem.Props.C16Value.lifetime_balanced",
+    "Qentem.Props.C16Value.prefix_owned",
+    "Qentem.ValueLedger.Acc_runL",
+    "Qentem.ValueLedger.Acc_stepL",
+    "Qentem.ValueLedger.Acc_stepBody",
+    "Qentem.ValueLedger.Acc_onTargetL",
+    "Qentem.ValueLedger.owned_takeSourceL",
+    "Qentem.ValueLedger.Good_updPathL",
+    "Qentem.ValueLedger.Good_updKeyL",
+    "Qentem.ValueLedger.Good_updIdxL",
+    "Qentem.ValueLedger.Acc_copyL",
+    "Qentem.ValueLedger.Acc_compressL",
+    "Qentem.ValueLedger.Acc_objMergeL_move",
+    "Qentem.ValueLedger.Acc_objMergeL_copy",
+    "Qentem.ValueLedger.Good_mergeL_move",
+    "Qentem.ValueLedger.Good_mergeL_copy",
+    "Qentem.ValueLedger.Acc_arrConcatL",
+    "Qentem.ValueLedger.Acc_destroyL",
+]
 
 SMALL_OPS = ["set 0/ka97 n1", "set 0/kc98 sa120", "set 0/kd97.97 sb121", "set 0/kc97 z", "rem 0 97 b", "rmi 0 0 a", "cmp 0",
              "set 0/ia1 N", "app 0 sb120", "ins 0 98 sa49", "set 0/kd98/ka97 n2", "cpy 1 0 a", "cpy 1/ka97 0 b", "mrg 0 1 b",
